@@ -66,8 +66,8 @@ func Normalize(v interface{}) interface{} {
 		return out
 	case reflect.Map:
 		out := map[string]interface{}{}
-		for _, k := range rv.MapKeys() {
-			out[fmt.Sprint(k.Interface())] = Normalize(rv.MapIndex(k).Interface())
+		for it := rv.MapRange(); it.Next(); {
+			out[fmt.Sprint(it.Key().Interface())] = Normalize(it.Value().Interface())
 		}
 		return out
 	}
@@ -185,8 +185,8 @@ func reprDepth(v interface{}, depth int) string {
 		return "[" + strings.Join(parts, ",") + "]"
 	case reflect.Map:
 		var parts []string
-		for _, k := range rv.MapKeys() {
-			parts = append(parts, fmt.Sprint(k.Interface())+":"+reprDepth(rv.MapIndex(k).Interface(), depth+1))
+		for it := rv.MapRange(); it.Next(); { // MapRange: a NaN key cannot be looked up again
+			parts = append(parts, fmt.Sprint(it.Key().Interface())+":"+reprDepth(it.Value().Interface(), depth+1))
 		}
 		sort.Strings(parts)
 		return "{" + strings.Join(parts, ",") + "}"
